@@ -158,21 +158,17 @@ Proof.
 Qed.
 
 (* ---- prim_fbsb.c: l1s_decode_sb and the re-initialisation *)
-Lemma fbsb_site_val m aux : 0 <= m < 2715646 -> site_prim_fbsb_1 m aux = m + 2.
+Lemma fbsb_site_val m aux : 0 <= m < 4294967294 -> site_prim_fbsb_1 m aux = (m + 2) mod 2715648.
 Proof. intros Hm. unfold site_prim_fbsb_1, w32. lia. Qed.
 
-Lemma fbsb_ok st m : 0 <= m < 2715646 ->
-  TimeOK (fbsb_reinit st m) /\ g_fn (cur (fbsb_reinit st m)) = m + 2 /\ tpu (fbsb_reinit st m) = tpu st.
+Lemma fbsb_ok st m : 0 <= m < 4294967294 ->
+  TimeOK (fbsb_reinit st m) /\ g_fn (cur (fbsb_reinit st m)) = (m + 2) mod 2715648 /\ tpu (fbsb_reinit st m) = tpu st.
 Proof.
   intros Hm. unfold fbsb_reinit. rewrite fbsb_site_val by exact Hm.
-  rewrite fn2gsmtime_decomp by (unfold H; lia).
-  split; [apply mk_ok; lia|]. cbn [cur tpu decomp g_fn]. split; reflexivity.
+  assert (Hr : 0 <= (m + 2) mod 2715648 < 2715648) by lia.
+  rewrite fn2gsmtime_decomp by (unfold H; exact Hr).
+  split; [apply mk_ok; exact Hr|]. cbn [cur tpu decomp g_fn]. split; reflexivity.
 Qed.
-
-Example fbsb_site_refuted :
-  site_prim_fbsb_1 2715646 0 = 2715648 /\ site_prim_fbsb_1 2715647 0 = 2715649 /\
-  gt_obs (cur (fbsb_reinit boot 2715646)) = [2715648; 2048; 0; 0; 0] /\ gt_obs (nxt (fbsb_reinit boot 2715646)) = [1; 2048; 1; 1; 0].
-Proof. repeat split; vm_compute; reflexivity. Qed.
 
 (* bit fields of the burst word *)
 Lemma land_lt a m n : 0 <= m < 2 ^ n -> 0 <= n -> 0 <= Z.land a m < 2 ^ n.
@@ -227,11 +223,19 @@ Proof.
   intros H2 H3. destruct (sb_fields_range sb) as [A [B C]]. unfold decode_sb. apply sb_time_ok; lia.
 Qed.
 
-(* a burst word outside the coding (T1 = 2047, T2 = 20, T3' = 7): the decoded frame number and the running time after the re-initialisation *)
-Example decode_sb_refuted :
-  sb_t1 30670595 = 2047 /\ sb_t2 30670595 = 20 /\ sb_t3p 30670595 = 7 /\
+(* whatever the burst word says, the decoded frame number stays below 2^32 - 2 ... *)
+Lemma sb_time_small t1 t2 t3p : 0 <= t1 < 2048 -> 0 <= t2 < 32 -> 0 <= t3p < 8 -> 0 <= g_fn (sb_time t1 t2 t3p) < 4294967294.
+Proof.
+  intros H1 H2 H3. unfold sb_time, gsmtime2fn, u8, u16, u32. cbn [g_fn g_t1 g_t2 g_t3]. lia.
+Qed.
+
+Lemma decode_sb_small sb : 0 <= g_fn (decode_sb sb) < 4294967294.
+Proof. destruct (sb_fields_range sb) as [A [B C]]. unfold decode_sb. apply sb_time_small; assumption. Qed.
+
+(* ... so that even a burst word outside the coding (T1 = 2047, T2 = 20, T3' = 7, decoded frame number 2715668) leaves a consistent running time *)
+Example decode_sb_outside_coding :
   gt_obs (decode_sb 30670595) = [2715668; 2047; 20; 71; 0] /\
-  st_obs (step boot (OSb 30670595)) = [2715670; 2048; 22; 22; 0; 23; 2048; 23; 23; 0; 0].
+  st_obs (step boot (OSb 30670595)) = [22; 0; 22; 22; 0; 23; 0; 23; 23; 0; 0].
 Proof. repeat split; vm_compute; reflexivity. Qed.
 
 (* ---- histories *)
@@ -239,8 +243,8 @@ Definition op_safe (o : op) : Prop :=
   match o with
   | OIrq _ => True
   | OSync fo _ => 1 <= fo <= 2715648
-  | OFbsb m => 0 <= m < 2715646
-  | OSb sb => sb_t2 sb < 26 /\ sb_t3p sb <= 4
+  | OFbsb m => 0 <= m < 4294967294
+  | OSb sb => True
   | ORaw s => TimeOK s
   end.
 
@@ -250,8 +254,7 @@ Proof.
   - destruct (irq_n_weak n st Hw) as [A B]. split; [exact A|]. intros Hne. apply B. intros ->. apply Hne. reflexivity.
   - destruct (sync_ok_pos st fo ta (proj1 Hw) Hs) as [A _]. split; [apply weak_of_ok; exact A|intros _; exact A].
   - destruct (fbsb_ok st m Hs) as [A _]. split; [apply weak_of_ok; exact A|intros _; exact A].
-  - destruct Hs as [S2 S3]. destruct (decode_sb_ok sb S2 S3) as [[F _] [_ [_ [_ L]]]].
-    destruct (fbsb_ok st (g_fn (decode_sb sb))) as [A _]; [lia|]. split; [apply weak_of_ok; exact A|intros _; exact A].
+  - destruct (fbsb_ok st (g_fn (decode_sb sb)) (decode_sb_small sb)) as [A _]. split; [apply weak_of_ok; exact A|intros _; exact A].
   - split; [apply weak_of_ok; exact Hs|intros _; exact Hs].
 Qed.
 
@@ -294,36 +297,30 @@ Proof.
   split; [exact E|]. rewrite E. apply fn2gsmtime_decomp. unfold H. lia.
 Qed.
 
-Lemma site_rx_nb_1 v aux : 1 <= v < 2715648 ->
+Lemma site_rx_nb_1 v aux : 0 <= v < 2715648 ->
   site_prim_rx_nb_1 v aux = (v - 1) mod 2715648 /\ fn2gsmtime (site_prim_rx_nb_1 v aux) = decomp ((v - 1) mod 2715648).
 Proof.
   intros Hv. assert (E : site_prim_rx_nb_1 v aux = (v - 1) mod 2715648) by (unfold site_prim_rx_nb_1, w32; lia).
   split; [exact E|]. rewrite E. apply fn2gsmtime_decomp. unfold H. lia.
 Qed.
 
-Lemma site_rx_nb_2 v aux : 4 <= v < 2715648 ->
+Lemma site_rx_nb_2 v aux : 0 <= v < 2715648 ->
   site_prim_rx_nb_2 v aux = (v - 4) mod 2715648 /\ fn2gsmtime (site_prim_rx_nb_2 v aux) = decomp ((v - 4) mod 2715648).
 Proof.
   intros Hv. assert (E : site_prim_rx_nb_2 v aux = (v - 4) mod 2715648) by (unfold site_prim_rx_nb_2, w32; lia).
   split; [exact E|]. rewrite E. apply fn2gsmtime_decomp. unfold H. lia.
 Qed.
 
-(* the faithful expressions at the frames right after the hyperframe wrap *)
-Example site_rx_nb_1_refuted :
-  site_prim_rx_nb_1 0 0 = 4294967295 /\ gt_obs (fn2gsmtime (site_prim_rx_nb_1 0 0)) = [4294967295; 27776; 21; 0; 5] /\
-  gt_obs (decomp ((0 - 1) mod 2715648)) = [2715647; 2047; 25; 50; 7].
+(* non-vacuity: the frames right after the hyperframe wrap *)
+Example site_rx_nb_wrap :
+  gt_obs (fn2gsmtime (site_prim_rx_nb_1 0 0)) = [2715647; 2047; 25; 50; 7] /\ gt_obs (fn2gsmtime (site_prim_rx_nb_2 3 0)) = [2715647; 2047; 25; 50; 7] /\
+  site_prim_rx_nb_2 0 0 = 2715644.
 Proof. repeat split; vm_compute; reflexivity. Qed.
 
-Example site_rx_nb_2_refuted :
-  site_prim_rx_nb_2 0 0 = 4294967292 /\ site_prim_rx_nb_2 1 0 = 4294967293 /\ site_prim_rx_nb_2 2 0 = 4294967294 /\ site_prim_rx_nb_2 3 0 = 4294967295 /\
-  gt_obs (fn2gsmtime (site_prim_rx_nb_2 3 0)) = [4294967295; 27776; 21; 0; 5] /\
-  gt_obs (decomp ((3 - 4) mod 2715648)) = [2715647; 2047; 25; 50; 7].
-Proof. repeat split; vm_compute; reflexivity. Qed.
-
-Lemma site_fbsb_1 m aux : 0 <= m < 2715646 ->
+Lemma site_fbsb_1 m aux : 0 <= m < 4294967294 ->
   site_prim_fbsb_1 m aux = (m + 2) mod 2715648 /\ fn2gsmtime (site_prim_fbsb_1 m aux) = decomp ((m + 2) mod 2715648).
 Proof.
-  intros Hm. assert (E : site_prim_fbsb_1 m aux = (m + 2) mod 2715648) by (rewrite fbsb_site_val by exact Hm; lia).
+  intros Hm. assert (E : site_prim_fbsb_1 m aux = (m + 2) mod 2715648) by (apply fbsb_site_val; exact Hm).
   split; [exact E|]. rewrite E. apply fn2gsmtime_decomp. unfold H. lia.
 Qed.
 
